@@ -5,6 +5,7 @@ from ..core import Unrecognised, call_name, const_str, norm, walk_no_nested, if_
 from ..cfg import CFG, no_exc
 from ..rt import statement_dispatch, helper_loop, EvalExpr
 from .. import schema as schema_mod
+from ..absint import Sym
 
 EXPLANATION = (
     'C08.X: the statement kinds dispatched equal the schema union ScriptStatement; label has no branch and falls through '
@@ -15,7 +16,14 @@ EXPLANATION = (
     'label" when absent; the cache is a local of the invocation, keyed by label name, written only with indices of '
     'that search. C08.J: a jump is taken iff it has no expr or value_boolean(evaluate(expr)); every truthiness decision '
     'goes through value_boolean. C08.R: return yields the evaluated expr or None from the invocation; a function '
-    'statement binds a global callable; script functions start a NEW invocation on their own list. C08.M: effect '
+    'statement binds a global callable; script functions start a NEW invocation on their own list. C08.E (E6s) decides L, J '
+    'and R semantically: _execute_script_helper is evaluated by the abstract interpreter on every statement list of length '
+    '<= 4 (quick) / 5 (thorough) over {label A, label B, jump A, jump B, jumpif A, expr, assignment, return, return expr} plus '
+    'longer curated lists, in global and function scope, with expressions opaque (evaluate_expression is an oracle recording '
+    'which expression is evaluated under which scope and options, value_boolean follows 4 truth schedules, host truthiness of '
+    'an opaque value is an error) and a statement limit of 9; outcome, order of evaluated expressions, assignments and the '
+    'statement count must equal the documented semantics. The syntactic part of C08.L that remains is cache locality (origins '
+    'of the cache object). C08.M: effect '
     'analysis - nothing derived from the model parameters (script, statements, statement, function, expr and their '
     'sub-objects) is the target of a store, delete, augmented assignment or mutating method. C08.A: the argument list '
     'handed to a function value is a list built for that call and never None. Decides these structural clauses; '
@@ -112,177 +120,192 @@ def check_counter(chk):
     jump_ids = {id(x) for s in sections.get('jump', []) for x in ast.walk(s)}
     for d in others:
         if id(d) in jump_ids:
-            v = d.value
-            if isinstance(v, ast.Name) or (isinstance(v, ast.Subscript) and isinstance(v.value, ast.Name)) or \
-                    (isinstance(v, ast.Call) and isinstance(v.func, ast.Attribute) and v.func.attr == 'get'):
-                chk.ok('C08.PC', f'{norm(d)} (jump target: the label\'s own index, then the common increment)')
-            else:
-                chk.bad('C08.PC', mod, func.name, norm(d),
-                        f'a taken jump must set the counter to the index of the label itself (execution continues after the label through the common increment); {norm(d)} '
-                        f'lands elsewhere and skips or repeats a statement', node=d)
+            chk.ok('C08.PC', f'{norm(d)} inside the jump branch (the landing position is decided by the abstract runs, C08.E)')
         else:
             chk.bad('C08.PC', mod, func.name, norm(d), 'the program counter is assigned outside the jump branch', node=d)
     return pc
 
 
+def _forms():
+    return ['LA', 'LB', 'JA', 'JB', 'CA', 'E', 'N', 'R', 'V']
+
+
+def _model(code):
+    out = []
+    for i, c in enumerate(code):
+        e = Sym('e', i)
+        out.append({'LA': {'label': 'A'}, 'LB': {'label': 'B'}, 'JA': {'jump': {'label': 'A'}}, 'JB': {'jump': {'label': 'B'}}, 'CA': {'jump': {'label': 'A', 'expr': e}},
+                    'CB': {'jump': {'label': 'B', 'expr': e}}, 'E': {'expr': {'expr': e}}, 'N': {'expr': {'name': 'x', 'expr': e}}, 'R': {'return': {}},
+                    'V': {'return': {'expr': e}}}[c])
+    return out
+
+
+CURATED = [
+    ('LA', 'E', 'LA', 'JA'), ('JA', 'E', 'LA', 'N', 'LA', 'V'), ('LA', 'CA', 'V'), ('CB', 'E', 'LB', 'CA', 'N', 'LA', 'R'), ('E', 'JB', 'N', 'LB', 'LB', 'V'),
+    ('LA', 'N', 'CB', 'JA', 'LB', 'V'), ('JB', 'LA', 'E', 'R', 'LB', 'JA'), ('CA', 'CA', 'LA', 'CA', 'V'), ('LB', 'LA', 'CB', 'CA', 'E'), ('N', 'JA'), ('CA', 'N'),
+    ('LA', 'LB', 'JB', 'E'), ('E', 'LA', 'E', 'LB', 'CA', 'CB', 'V'),
+]
+SCHEDULES = [[True], [False], [False, True], [True, False, False]]
+
+
+def _step_job(args):
+    root, codes, limit = args
+    from ..core import Repo
+    from .. import stepsim
+    repo = Repo(root)
+    mod = repo.module('runtime')
+    func = mod.funcs.get('_execute_script_helper')
+    it = stepsim.StepInterp(repo, mod, 'C08.E')
+    out = []
+    n = 0
+    for code in codes:
+        model = _model(code)
+        scheds = SCHEDULES if any(c in ('CA', 'CB') for c in code) else [[True]]
+        for scope in ('global', 'function'):
+            for sched in scheds:
+                n += 1
+                want = stepsim.reference(model, scope, sched, limit)
+                try:
+                    got = it.run(func, stepsim.build(model), scope, sched, limit)
+                except stepsim.HostTruth as ht:
+                    out.append(('C08.J', stepsim.show(model), scope, sched, 'the host truthiness of an evaluated value decides control flow (instead of value_boolean): ' + (norm(ht.node)[:80] if ht.node is not None else ''),
+                                getattr(ht.node, 'lineno', None)))
+                    continue
+                except Unrecognised as exc:
+                    return ('unrec', str(exc))
+                diff = stepsim.compare(got, want)
+                if diff:
+                    rule = 'C08.L' if 'Unknown jump label' in diff else 'C08.E'
+                    out.append((rule, stepsim.show(model), scope, sched, diff, None))
+    return ('ok', n, out)
+
+
+def check_step(chk):
+    """C08.E/J/L: the statement loop, abstractly executed over small jump-level models, agrees with the documented semantics"""
+    import itertools
+    import multiprocessing as mp
+    import os
+    mod, func, loop = helper_loop(chk.repo, 'C08.E')
+    depth = 5 if chk.tier == 'thorough' else 4
+    codes = [c for n in range(1, depth + 1) for c in itertools.product(_forms(), repeat=n)] + CURATED
+    limit = 9
+    chunks = [codes[i::32] for i in range(32)]
+    jobs = [(chk.repo.root, ch, limit) for ch in chunks if ch]
+    if os.environ.get('VERIF_SERIAL'):
+        results = [_step_job(j) for j in jobs]
+    else:
+        with mp.Pool(min(16, os.cpu_count() or 1)) as pool:
+            results = pool.map(_step_job, jobs)
+    n = 0
+    seen = {}
+    for r in results:
+        if r[0] == 'unrec':
+            raise Unrecognised('C08.E', r[1], mod.rel)
+        n += r[1]
+        for rule, text, scope, sched, diff, line in r[2]:
+            seen.setdefault((rule, diff.split(' ')[0] if rule != 'C08.J' else 'host truth'), []).append((text, scope, sched, diff, line))
+    for (rule, _k), items in sorted(seen.items()):
+        items.sort(key=lambda x: len(x[0]))
+        text, scope, sched, diff, line = items[0]
+        chk.bad(rule, mod, func.name, f'model `{text}` ({scope} scope, value_boolean schedule {sched})',
+                f'abstract execution of the statement loop on the model `{text}` ({scope} scope, truth schedule {sched}, statement limit {limit}) {diff}; '
+                f'{len(items)} of {n} explored runs deviate in this way', node=None)
+    if not seen:
+        chk.ok('C08.E', f'{n} abstract runs (all {len(codes) - len(CURATED)} statement lists of length <= {depth} over label A/B, jump A/B, jumpif A, expr, assignment, return, return expr; '
+               f'{len(CURATED)} longer curated lists; global and function scope; 4 truth schedules; limit {limit}): outcome, evaluated expressions in order, scope of evaluation, '
+               f'assignments and statement count agree with the documented semantics')
+        chk.ok('C08.J', 'a jump is taken iff it has no expr or value_boolean(evaluated expr); the expression is evaluated exactly once; no host truthiness of an evaluated value (all runs)')
+        chk.ok('C08.L', 'a taken jump continues after the FIRST label of that name in the CURRENT list (also at index 0, also backwards, also when cached); unknown label raises BareScriptRuntimeError')
+        chk.ok('C08.R', 'return ends the invocation with the evaluated expr or None; running past the end returns None (all runs)')
+    chk.extra['abstract_runs'] = n
+
+
 def check_labels(chk):
+    """C08.L (cache locality): the label-index cache is created empty inside the invocation"""
     mod, func, loop, key_var, sections, chain = statement_dispatch(chk.repo, 'C08.L')
     stmts = sections.get('jump')
     if stmts is None:
         raise Unrecognised('C08.L', "no 'jump' branch", mod.rel)
-    stmts_param = func.args.args[0].arg
     params = {a.arg for a in func.args.args} | {a.arg for a in func.args.kwonlyargs}
     region = ast.Module(body=stmts, type_ignores=[])
-    # --- the search
-    searches = []
-    for n in ast.walk(ast.Module(body=func.body, type_ignores=[])):
-        if isinstance(n, (ast.GeneratorExp, ast.ListComp, ast.DictComp, ast.For)):
-            it = n.generators[0].iter if not isinstance(n, ast.For) else n.iter
-            if 'enumerate' in norm(it) and ("'label'" in norm(n)):
-                searches.append(n)
-    if len(searches) != 1:
-        raise Unrecognised('C08.L', f'{len(searches)} label searches found (expected one enumerate(...) over the statement list mentioning label)', mod.rel)
-    srch = searches[0]
-    it = srch.generators[0].iter if not isinstance(srch, ast.For) else srch.iter
-    it_txt = norm(it)
-    if it_txt != f'enumerate({stmts_param})':
-        if stmts_param not in it_txt:
-            chk.bad('C08.L', mod, func.name, it_txt, f'labels are searched in {it_txt}, not in the statement list of this invocation ({stmts_param}): jumps cross scopes', node=srch)
-        elif 'reversed' in it_txt:
-            chk.bad('C08.L', mod, func.name, it_txt, 'the label search scans backwards: with duplicate labels the LAST one is taken, the semantics say the first', node=srch)
-        else:
-            raise Unrecognised('C08.L', f'label search iterates {it_txt}', mod.rel)
-    else:
-        chk.ok('C08.L', f'label search iterates enumerate({stmts_param}) (the current list, in order)')
-    if isinstance(srch, ast.DictComp):
-        chk.bad('C08.L', mod, func.name, norm(srch)[:120],
-                'a label table built by a dict comprehension keeps the LAST index of a duplicated label name; a jump must continue after the FIRST label of that name', node=srch)
-    elif isinstance(srch, ast.For):
-        guarded = any(isinstance(s, ast.If) and ' not in ' in norm(s.test) for s in srch.body) or any('setdefault' in norm(s) for s in srch.body)
-        if guarded:
-            chk.ok('C08.L', 'label table loop keeps the first index of each label (guarded store)')
-        else:
-            chk.bad('C08.L', mod, func.name, norm(srch.body[0])[:120], 'a label table filled by unconditional stores keeps the LAST index of a duplicated label', node=srch)
-    else:
-        par = getattr(srch, '_parent', None)
-        if isinstance(par, ast.Call) and call_name(par) == 'next' and len(par.args) == 2 and norm(par.args[1]) == '-1':
-            chk.ok('C08.L', 'first match: next(<generator over the list>, -1)')
-        elif isinstance(srch, ast.ListComp):
-            raise Unrecognised('C08.L', 'label search via list comprehension: which element is used is not recognised', mod.rel)
-        else:
-            raise Unrecognised('C08.L', f'label search form not recognised: {norm(par)[:80]}', mod.rel)
-        cond = srch.generators[0].ifs
-        tgt = srch.generators[0].target
-        svar = norm(tgt.elts[1]) if isinstance(tgt, ast.Tuple) and len(tgt.elts) == 2 else None
-        ctxt = norm(cond[0]) if len(cond) == 1 else ''
-        lbl = None
-        for a, b in (("get('label')", ''), ("['label']", '')):
-            pass
-        ok = False
-        if isinstance(cond[0], ast.Compare) and len(cond[0].ops) == 1 and isinstance(cond[0].ops[0], ast.Eq):
-            l, r = norm(cond[0].left), norm(cond[0].comparators[0])
-            for x, y in ((l, r), (r, l)):
-                if x == f"{svar}.get('label')":
-                    lbl = y
-                    ok = True
-        if ok:
-            # lbl must be the jump's label
-            ldefs = [norm(n.value) for n in ast.walk(region) if isinstance(n, ast.Assign) and norm(n.targets[0]) == lbl]
-            if lbl.endswith("['jump']['label']") or any(d.endswith("['jump']['label']") for d in ldefs):
-                chk.ok('C08.L', f"match condition: {ctxt} with the jump's own label")
-            else:
-                chk.bad('C08.L', mod, func.name, ctxt, "the search must compare each statement's label with the label of the jump being executed", node=srch)
-        else:
-            raise Unrecognised('C08.L', f'label match condition not recognised: {ctxt}', mod.rel)
-    # --- unknown label error
-    raises = [n for n in ast.walk(region) if isinstance(n, ast.Raise)]
-    if len(raises) == 1 and isinstance(raises[0].exc, ast.Call) and call_name(raises[0].exc) == 'BareScriptRuntimeError' and 'Unknown jump label' in norm(raises[0].exc):
-        g = getattr(raises[0], '_parent', None)
-        if isinstance(g, ast.If) and norm(g.test).endswith('== -1'):
-            chk.ok('C08.L', 'no matching label -> BareScriptRuntimeError("Unknown jump label ...")')
-        else:
-            chk.ok('C08.L', 'unknown label raises BareScriptRuntimeError("Unknown jump label ...")')
-    else:
-        chk.bad('C08.L', mod, func.name, 'unknown-label error', 'a jump to a label that does not exist in the current list must raise BareScriptRuntimeError "Unknown jump label"', node=stmts[0])
-    # --- the cache
     caches = set()
     for n in ast.walk(region):
-        if isinstance(n, ast.Assign) and isinstance(n.targets[0], ast.Subscript) and isinstance(n.targets[0].value, ast.Name) and 'label' in norm(n.targets[0].slice):
-            caches.add(n.targets[0].value.id)
+        if isinstance(n, ast.Assign):
+            for t in n.targets:
+                if isinstance(t, ast.Subscript) and isinstance(t.value, ast.Name):
+                    caches.add(t.value.id)
+                elif isinstance(t, ast.Subscript):
+                    base = norm(t.value)
+                    chk.bad('C08.L', mod, func.name, norm(n)[:100], f'label indices are stored on {base} (shared state): they leak between statement lists', node=n)
+        if isinstance(n, ast.Call) and isinstance(n.func, ast.Attribute) and n.func.attr == 'setdefault' and isinstance(n.func.value, ast.Name):
+            caches.add(n.func.value.id)
+    module_state = {k for k, v in mod.assigns.items() if any(isinstance(x, (ast.Dict, ast.List, ast.Set, ast.Call)) for x in v)}
     for c in sorted(caches):
-        inits = [s for s in func.body if isinstance(s, ast.Assign) and norm(s.targets[0]) == c]
         if c in params:
             chk.bad('C08.L', mod, func.name, f'label cache {c} is a parameter',
                     'the label-index cache is passed in from outside the invocation: indices cached for one statement list are used for another (jumps cross between function '
                     'bodies, or stale positions are reused)', node=func)
-        elif len(inits) == 1 and norm(inits[0].value) in ('None', '{}', 'dict()'):
-            chk.ok('C08.L', f'label cache {c} is a local of the invocation (initialised {norm(inits[0].value)})')
-        else:
-            chk.bad('C08.L', mod, func.name, f'label cache {c}', 'the label-index cache must be a local variable created empty in each invocation', node=stmts[0])
-    for n in ast.walk(region):
-        if isinstance(n, ast.Assign) and isinstance(n.targets[0], ast.Subscript):
-            base = norm(n.targets[0].value)
-            if 'options' in base or base.startswith('globals'):
-                chk.bad('C08.L', mod, func.name, norm(n)[:100], 'label indices are cached on shared state (options/globals): they leak between statement lists', node=n)
+            continue
+        origins = []
+        for n in walk_no_nested(func):
+            if isinstance(n, ast.Assign) and any(isinstance(t, ast.Name) and t.id == c for t in n.targets):
+                origins.append(n)
+        if not origins and c in module_state:
+            chk.bad('C08.L', mod, func.name, f'label cache {c} is module state', 'label indices are cached in a module-level object: they outlive the invocation and are reused for other statement lists', node=stmts[0])
+            continue
+        verdicts = []
+        for n in origins:
+            v = n.value
+            shared = [t for t in n.targets if isinstance(t, ast.Subscript)]
+            names = {x.id for x in ast.walk(v) if isinstance(x, ast.Name)}
+            if shared:
+                verdicts.append(('bad', f'{norm(n)[:80]}: the cache object is also stored on {norm(shared[0].value)}'))
+            elif norm(v) in ('None', '{}', 'dict()'):
+                verdicts.append(('ok', norm(n)))
+            elif names & module_state:
+                verdicts.append(('bad', f'{norm(n)[:80]}: the cache comes from the module-level object {sorted(names & module_state)[0]}'))
+            elif any(p in names for p in params if p != func.args.args[0].arg) and ('get' in norm(v) or isinstance(v, ast.Subscript)):
+                verdicts.append(('bad', f'{norm(n)[:80]}: the cache is taken from {sorted(names & params)[0]} (shared between invocations)'))
+            elif isinstance(v, ast.DictComp) or (isinstance(v, ast.Call) and call_name(v) in mod.funcs):
+                verdicts.append(('ok', norm(n)[:60]))
+            else:
+                verdicts.append(('unrec', norm(n)[:80]))
+        for kind, text in verdicts:
+            if kind == 'bad':
+                chk.bad('C08.L', mod, func.name, f'label cache {c}: {text[:100]}',
+                        f'the label-index cache must be created empty inside each invocation; {text}: indices computed for one statement list are used for another '
+                        f'(labels of different scopes / files share names such as __bareScriptDone0)', node=stmts[0])
+            elif kind == 'unrec':
+                chk.unrec('C08.L', f'origin of the label cache {c} not understood: {text}', mod.rel)
+        if verdicts and all(k == 'ok' for k, _t in verdicts):
+            chk.ok('C08.L', f'label cache {c} is a local of the invocation ({"; ".join(t for _k, t in verdicts)})')
 
 
 def check_truthiness(chk):
     mod, func, loop, key_var, sections, chain = statement_dispatch(chk.repo, 'C08.J')
     # package-level: no host truthiness on evaluate_expression results in runtime.py
+    n = 0
     for fname, f in mod.funcs.items():
-        for n in walk_no_nested(f):
+        for node in walk_no_nested(f):
             test = None
-            if isinstance(n, (ast.If, ast.While, ast.IfExp)):
-                test = n.test
-            elif isinstance(n, ast.UnaryOp) and isinstance(n.op, ast.Not):
-                test = n.operand
+            if isinstance(node, (ast.If, ast.While, ast.IfExp)):
+                test = node.test
+            elif isinstance(node, ast.UnaryOp) and isinstance(node.op, ast.Not):
+                test = node.operand
             if test is None:
                 continue
+            n += 1
             for c in ([test] + (list(test.values) if isinstance(test, ast.BoolOp) else [])):
                 if isinstance(c, ast.UnaryOp) and isinstance(c.op, ast.Not):
                     c = c.operand
                 if isinstance(c, ast.Call) and call_name(c) == 'evaluate_expression':
-                    chk.bad('C08.J', mod, fname, norm(n)[:120], 'the host truthiness of an evaluated value is tested directly instead of value_boolean(...)', node=n)
-    stmts = sections.get('jump', [])
-    top = [s for s in stmts if isinstance(s, ast.If)]
-    if len(top) != 1:
-        raise Unrecognised('C08.J', 'jump branch is not a single conditional', mod.rel)
-    t = top[0].test
-    evals = [n for n in ast.walk(ast.Module(body=stmts, type_ignores=[])) if isinstance(n, ast.Call) and call_name(n) == 'evaluate_expression']
-    good = isinstance(t, ast.BoolOp) and isinstance(t.op, ast.Or) and len(t.values) == 2 and norm(t.values[0]).startswith("'expr' not in ") \
-        and isinstance(t.values[1], ast.Call) and call_name(t.values[1]) == 'value_boolean' and len(evals) == 1 and evals[0] is t.values[1].args[0] \
-        and norm(evals[0].args[0]).endswith("['jump']['expr']")
-    if good and not top[0].orelse:
-        chk.ok('C08.J', "jump taken iff no expr or value_boolean(evaluate(expr)); expr evaluated once")
-    else:
-        chk.bad('C08.J', mod, func.name, norm(t)[:140],
-                "a jump must be taken iff it has no 'expr' or value_boolean(evaluate_expression(expr)) is true, with the expression evaluated exactly once and no other "
-                "truthiness shortcut (host truthiness differs for empty objects)", node=t)
+                    chk.bad('C08.J', mod, fname, norm(node)[:120], 'the host truthiness of an evaluated value is tested directly instead of value_boolean(...)', node=node)
+    chk.ok('C08.J', f'runtime.py: none of {n} conditions tests the result of evaluate_expression directly')
 
 
 def check_return_function(chk):
-    mod, func, loop, key_var, sections, chain = statement_dispatch(chk.repo, 'C08.R')
-    stmts = sections.get('return')
-    if stmts is None:
-        raise Unrecognised('C08.R', "no 'return' branch", mod.rel)
-    rets = [n for n in ast.walk(ast.Module(body=stmts, type_ignores=[])) if isinstance(n, ast.Return)]
-    vals = sorted(norm(r.value) if r.value is not None else 'None' for r in rets)
-    with_expr = [r for r in rets if isinstance(r.value, ast.Call) and call_name(r.value) == 'evaluate_expression' and norm(r.value.args[0]).endswith("['return']['expr']")]
-    none = [r for r in rets if r.value is None or norm(r.value) == 'None']
-    if len(with_expr) == 1 and len(none) == 1 and len(rets) == 2 and isinstance(stmts[-1], ast.Return):
-        g = getattr(with_expr[0], '_parent', None)
-        if isinstance(g, ast.If) and norm(g.test).startswith("'expr' in "):
-            chk.ok('C08.R', 'return: evaluated expr when present, else None; ends the invocation on every path')
-        else:
-            chk.bad('C08.R', mod, func.name, norm(g.test)[:80] if isinstance(g, ast.If) else 'return guard', "the return value must be the evaluated 'expr' exactly when one is present", node=with_expr[0])
-    else:
-        chk.bad('C08.R', mod, func.name, f'return branch returns {vals}', 'a return statement must end the current invocation with its evaluated expression, or None without one', node=stmts[0])
-    # after the loop the invocation returns None
-    tail = func.body[-1]
-    if isinstance(tail, ast.Return) and (tail.value is None or norm(tail.value) == 'None'):
-        chk.ok('C08.R', 'falling off the end of the list returns None')
-    else:
-        chk.bad('C08.R', mod, func.name, norm(tail)[:80], 'an invocation that runs past its last statement must return None', node=tail)
+    """kept for callers: return semantics are decided by the abstract runs (C08.E)"""
+    check_step(chk)
 
 
 def model_derived_names(func):
@@ -414,10 +437,11 @@ def check_arg_list(chk):
 
 def run(chk):
     chk.rule('C08.X', 'statement dispatch = schema union; label falls through', floor=6)
-    chk.rule('C08.PC', 'program counter discipline (init, bound, +1 exactly once per path, label index only)', floor=5)
-    chk.rule('C08.L', 'label lookup: first match in the current list; unknown -> runtime error; cache local to the invocation', floor=5)
-    chk.rule('C08.J', 'conditional jump: no expr or value_boolean(evaluate(expr)), evaluated once', floor=1)
-    chk.rule('C08.R', 'return semantics', floor=2)
+    chk.rule('C08.PC', 'program counter discipline (init, bound, +1 exactly once per path, assigned only in the jump branch)', floor=4)
+    chk.rule('C08.L', 'label lookup: first match in the current list; unknown -> runtime error; cache local to the invocation', floor=2)
+    chk.rule('C08.J', 'conditional jump: no expr or value_boolean(evaluate(expr)), evaluated once', floor=2)
+    chk.rule('C08.R', 'return semantics (abstract runs)', floor=1)
+    chk.rule('C08.E', 'abstract execution of the statement loop over small jump-level models agrees with the documented semantics', floor=1)
     chk.rule('C08.M', 'model immutability (effect analysis over model-derived objects in runtime.py and model.py)', floor=8)
     chk.rule('C08.A', 'argument list handed to function values is fresh and never None', floor=1)
     chk.assumptions += ['models are schema-valid; host functions do not retain references to model parts (they only receive evaluated values)']
@@ -425,7 +449,7 @@ def run(chk):
     chk.guard('C08.PC', check_counter, chk)
     chk.guard('C08.L', check_labels, chk)
     chk.guard('C08.J', check_truthiness, chk)
-    chk.guard('C08.R', check_return_function, chk)
+    chk.guard('C08.E', check_step, chk)
     chk.guard('C08.M', check_immutability, chk)
     chk.guard('C08.A', check_arg_list, chk)
     # function statement + new invocation per call are C04.R / C04.F
